@@ -61,6 +61,7 @@ def check_concat(case):
     want = [solo(e) for e in encs]
     buf = b''.join(encs)
     got = []
+    kept = []
     guard = 0
     while buf:
         guard += 1
@@ -72,7 +73,14 @@ def check_concat(case):
             raise Violation('consumed-range', 'consumed %r with %d buffered' %
                             (n, len(buf)))
         got.append((ch, dump_frame(obj), n))
+        kept.append(obj)
         buf = buf[n:]
+    # ... and the objects handed out earlier must not have been changed by later decodes
+    for i, (obj, g) in enumerate(zip(kept, got)):
+        if dump_frame(obj) != g[1]:
+            raise Violation('earlier-frame-changed', 'frame %d of %d no longer is what '
+                            'was decoded once the rest of the stream has been decoded' %
+                            (i, len(kept)))
     if [(c, d) for c, d, _ in got] != want:
         raise Violation('sequence', 'decoded %d frames %s, sent %d' % (
             len(got), canon.short([g[1][0] for g in got]), len(want)))
@@ -112,10 +120,30 @@ def trailing_bytes():
 
 
 def concat_cases(tier):
-    return st.fixed_dictionaries({
+    def with_variants(case, picks, others):
+        # repeat some frames of the stream with the *same shape* (same class / same
+        # property subset) but different values
+        frames = list(case['frames'])
+        for p, o in zip(picks, others):
+            src = frames[p % len(frames)]
+            if src['kind'] == 'header' and o['kind'] == 'header':
+                props = {}
+                for i, k in enumerate(src['props']):
+                    v = src['props'][k]
+                    props[k] = S._fit_bytes('x' + v, 255) if isinstance(v, str) else \
+                        (3 - v if k == 'delivery_mode' else (v + 1) % 256) \
+                        if isinstance(v, int) else v
+                frames.append(dict(src, props=props, body_size=o['body_size']))
+            elif src['kind'] == 'method':
+                frames.append(dict(src, ch=(src['ch'] + 1) % 65536))
+        return dict(case, frames=frames)
+    base = st.fixed_dictionaries({
         'frames': st.lists(S.any_frame_cases(big_bodies=False), min_size=1,
                            max_size=12),
         'trailing': trailing_bytes()})
+    hdr = S.header_cases().map(lambda c: dict(c, kind='header'))
+    return st.builds(with_variants, base, st.lists(st.integers(0, 11), max_size=3),
+                     st.lists(hdr, min_size=3, max_size=3))
 
 
 def check_long_tail(case):
